@@ -301,9 +301,8 @@ impl EntrySpec {
 #[derive(Clone, Debug)]
 struct Stmt {
     opening: i64,
-    new_to_old: bool,
-    /// the configuration names an `operator` (payee of charges)
-    operator: bool,
+    /// the import configuration the statement is imported with
+    cfg: CfgSpec,
     entries: Vec<EntrySpec>,
 }
 
@@ -323,11 +322,10 @@ impl Stmt {
     }
     fn summary(&self) -> String {
         format!(
-            "opening {} closing {} row_order {} operator {} entries(chronological) [{}]",
+            "opening {} closing {} {} entries(chronological) [{}]",
             cents(self.opening),
             cents(self.closing()),
-            if self.new_to_old { "new_to_old" } else { "old_to_new" },
-            if self.operator { "present" } else { "absent" },
+            self.cfg.summary(),
             self.entries.iter().map(|e| e.name()).collect::<Vec<_>>().join(", ")
         )
     }
@@ -457,29 +455,117 @@ fn render_xml(stmt: &Stmt) -> String {
     ));
     let n = stmt.entries.len();
     for pos in 0..n {
-        let i = if stmt.new_to_old { n - 1 - pos } else { pos };
+        let i = if stmt.cfg.new_to_old { n - 1 - pos } else { pos };
         render_entry(&mut o, stmt, i);
     }
     o.push_str("    </Stmt>\n  </BkToCstmrStmt>\n</Document>\n");
     o
 }
 
-/// statement file names; the configuration document is selected by the file name: [operator present?][new_to_old?]
-const FILES: [[&str; 2]; 2] = [["stmt_noop_o2n.xml", "stmt_noop_n2o.xml"], ["stmt_o2n.xml", "stmt_n2o.xml"]];
+/// Which of two nested configuration fragments (outer `bank/`, inner `bank/savings/`) sets a field.
+#[derive(Clone, Copy, Debug, PartialEq, Eq, Hash)]
+enum Where {
+    Outer,
+    Inner,
+    /// both, with different values: the more specific (inner) one must win
+    Both,
+}
 
-fn config_yaml() -> String {
-    let one = |file: &str, order: &str, operator: bool| {
+#[derive(Clone, Copy, Debug, PartialEq, Eq, Hash)]
+enum Layout {
+    /// one document whose path is the file name
+    Single,
+    /// two nested fragments (+ a non-matching decoy `otherbank/`); inner listed first in the file
+    Nested { account: Where, commodity: Where },
+    /// three nested fragments all setting the account
+    Three,
+}
+
+/// One import configuration. What the statement is silent about is fixed; what the property speaks about
+/// (the account, row order) and what decides how the ledger is printed (account widths, precision) varies.
+#[derive(Clone, Debug, PartialEq, Eq, Hash)]
+struct CfgSpec {
+    new_to_old: bool,
+    /// the configuration names an `operator` (payee of charges)
+    operator: bool,
+    /// the account the statement is imported into = what the most specific matching fragment says
+    account: String,
+    /// counter account assigned to every entry by the rewrite rule (None: okane's Income/Expenses:Unknown)
+    counter: Option<String>,
+    /// format.commodity.CHF.precision: 2 (false: no precision configured, numbers print as in the statement)
+    precision2: bool,
+    layout: Layout,
+}
+
+const OUTER_DECOY: &str = "Assets:Outer Decoy";
+const MIDDLE_DECOY: &str = "Assets:Middle Decoy";
+
+impl CfgSpec {
+    fn plain(new_to_old: bool, operator: bool) -> CfgSpec {
+        CfgSpec { new_to_old, operator, account: ACCOUNT.to_string(), counter: None, precision2: true, layout: Layout::Single }
+    }
+    fn is_plain(&self) -> bool {
+        self.account == ACCOUNT && self.counter.is_none() && self.precision2 && self.layout == Layout::Single
+    }
+    /// path of the statement file below the per-configuration scratch directory
+    fn source(&self) -> &'static str {
+        match self.layout {
+            Layout::Single => "stmt.xml",
+            _ => "bank/savings/stmt.xml",
+        }
+    }
+    fn summary(&self) -> String {
         format!(
-            "path: {}\nencoding: UTF-8\naccount: {}\naccount_type: asset\n{}commodity: {}\nformat:\n  commodity:\n    {}:\n      precision: 2\n  row_order: {}\nrewrite:\n  - matcher:\n      additional_entry_info: \"(?P<payee>.+)\"\n",
-            file,
-            ACCOUNT,
-            if operator { "operator: Okane Bank (fee)\n" } else { "" },
-            CCY,
-            CCY,
-            order
+            "row_order {} operator {} account {:?} counter {:?} precision {} config {:?}",
+            if self.new_to_old { "new_to_old" } else { "old_to_new" },
+            if self.operator { "present" } else { "absent" },
+            self.account,
+            self.counter,
+            if self.precision2 { "2" } else { "none" },
+            self.layout
         )
-    };
-    format!("{}---\n{}---\n{}---\n{}", one(FILES[1][0], "old_to_new", true), one(FILES[1][1], "new_to_old", true), one(FILES[0][0], "old_to_new", false), one(FILES[0][1], "new_to_old", false))
+    }
+    fn yaml(&self) -> String {
+        let q = |v: &str| format!("\"{}\"", v);
+        let base = format!("encoding: UTF-8\naccount_type: asset\n{}", if self.operator { "operator: Okane Bank (fee)\n" } else { "" });
+        let format = format!("format:\n{}  row_order: {}\n", if self.precision2 { format!("  commodity:\n    {}:\n      precision: 2\n", CCY) } else { String::new() }, if self.new_to_old { "new_to_old" } else { "old_to_new" });
+        let rewrite = format!("rewrite:\n  - matcher:\n      additional_entry_info: \"(?P<payee>.+)\"\n{}", self.counter.as_ref().map(|c| format!("    account: {}\n", q(c))).unwrap_or_default());
+        let acct = |v: &str| format!("account: {}\n", q(v));
+        let comm = |v: &str| format!("commodity: {}\n", v);
+        match self.layout {
+            Layout::Single => format!("path: stmt.xml\n{}{}{}{}{}", base, acct(&self.account), comm(CCY), format, rewrite),
+            Layout::Nested { account, commodity } => {
+                let mut outer = format!("path: bank/\n{}", base);
+                let mut inner = "path: bank/savings/\n".to_string();
+                match account {
+                    Where::Outer => outer.push_str(&acct(&self.account)),
+                    Where::Inner => inner.push_str(&acct(&self.account)),
+                    Where::Both => {
+                        outer.push_str(&acct(OUTER_DECOY));
+                        inner.push_str(&acct(&self.account));
+                    }
+                }
+                match commodity {
+                    Where::Outer => outer.push_str(&comm(CCY)),
+                    Where::Inner => inner.push_str(&comm(CCY)),
+                    Where::Both => {
+                        outer.push_str(&comm("EUR"));
+                        inner.push_str(&comm(CCY));
+                    }
+                }
+                outer.push_str(&format);
+                outer.push_str(&rewrite);
+                let decoy = format!("path: otherbank/\n{}{}", acct("Assets:Wrong Bank"), comm("JPY"));
+                format!("{}---\n{}---\n{}", inner, decoy, outer)
+            }
+            Layout::Three => {
+                let outer = format!("path: bank/\n{}{}{}{}", base, acct(OUTER_DECOY), comm("EUR"), rewrite);
+                let middle = format!("path: bank/savings/\n{}", acct(MIDDLE_DECOY));
+                let inner = format!("path: bank/savings/stmt\n{}{}{}", acct(&self.account), comm(CCY), format);
+                format!("{}---\n{}---\n{}", middle, inner, outer)
+            }
+        }
+    }
 }
 
 // ------------------------------------------------------------------------------------------
@@ -531,7 +617,8 @@ struct ObsTxn {
     eff: Option<NaiveDate>,
     /// postings on the imported account
     acct: Vec<ObsPost>,
-    nposts: usize,
+    /// every posting: account name, amount, balance assertion (for comparing the two observations)
+    all: Vec<(String, Option<(Q, String)>, Option<(Q, String)>)>,
 }
 
 fn lit(v: &expr::ValueExpr<'_>) -> Option<(Q, String)> {
@@ -541,54 +628,70 @@ fn lit(v: &expr::ValueExpr<'_>) -> Option<(Q, String)> {
     }
 }
 
-fn observe(t: &plain::Transaction<'_>) -> ObsTxn {
+fn observe(t: &plain::Transaction<'_>, account: &str) -> ObsTxn {
     let mut acct = vec![];
+    let mut all = vec![];
     for p in &t.posts {
-        if p.account.as_ref() == ACCOUNT {
+        all.push((p.account.to_string(), p.amount.as_ref().and_then(|a| lit(&a.amount)), p.balance.as_ref().and_then(lit)));
+        if p.account.as_ref() == account {
             let amount = p.amount.as_ref().and_then(|a| lit(&a.amount));
             let balance = p.balance.as_ref().and_then(lit);
             let literal = p.amount.as_ref().map(|a| lit(&a.amount).is_some()).unwrap_or(false) && p.balance.as_ref().map(|b| lit(b).is_some()).unwrap_or(true);
             acct.push(ObsPost { amount, balance, literal });
         }
     }
-    ObsTxn { date: t.date, eff: t.effective_date, acct, nposts: t.posts.len() }
+    ObsTxn { date: t.date, eff: t.effective_date, acct, all }
+}
+
+/// Files of one configuration: written once per process.
+struct CfgFiles {
+    config_path: PathBuf,
+    source: PathBuf,
+    /// what `ConfigSet::select` makes of the configuration for the statement file
+    entry: Result<okane::import::config::ConfigEntry, String>,
 }
 
 struct Scratch {
-    config_path: PathBuf,
-    /// [operator present?][new_to_old?]
-    files: [[PathBuf; 2]; 2],
-    cfgs: [[okane::import::config::ConfigEntry; 2]; 2],
+    dir: PathBuf,
+    cache: std::cell::RefCell<std::collections::HashMap<CfgSpec, std::rc::Rc<CfgFiles>>>,
 }
 
 fn scratch() -> Scratch {
-    use okane::import::config::RowOrder;
-    let dir = oka::scratch_dir("c18");
-    let config_path = dir.join("config.yml");
-    std::fs::write(&config_path, config_yaml()).expect("harness bug: cannot write config");
-    let set = okane::import::config::load_from_yaml(config_yaml().as_bytes()).expect("harness bug: config does not load");
-    let files = [[dir.join(FILES[0][0]), dir.join(FILES[0][1])], [dir.join(FILES[1][0]), dir.join(FILES[1][1])]];
-    let sel = |p: &PathBuf| set.select(p).expect("harness bug: select").expect("harness bug: no config entry");
-    let cfgs = [[sel(&files[0][0]), sel(&files[0][1])], [sel(&files[1][0]), sel(&files[1][1])]];
-    for op in 0..2 {
-        for ord in 0..2 {
-            let c = &cfgs[op][ord];
-            if c.format.row_order != [RowOrder::OldToNew, RowOrder::NewToOld][ord] || c.operator.is_some() != (op == 1) || c.path != FILES[op][ord] {
-                panic!("harness bug: configuration document not selected by the file name");
-            }
-        }
-    }
-    Scratch { config_path, files, cfgs }
+    Scratch { dir: oka::scratch_dir("c18"), cache: Default::default() }
 }
 
-/// (a) library entry point
-fn run_lib(sc: &Scratch, stmt: &Stmt, xml: &str) -> Result<Vec<ObsTxn>, String> {
-    let cfg = &sc.cfgs[stmt.operator as usize][stmt.new_to_old as usize];
+impl Scratch {
+    fn files(&self, cfg: &CfgSpec) -> std::rc::Rc<CfgFiles> {
+        if let Some(f) = self.cache.borrow().get(cfg) {
+            return f.clone();
+        }
+        let n = self.cache.borrow().len();
+        let dir = self.dir.join(format!("cfg{}", n));
+        let source = dir.join(cfg.source());
+        std::fs::create_dir_all(source.parent().unwrap()).expect("harness bug: cannot create the configuration directory");
+        let config_path = dir.join("config.yml");
+        std::fs::write(&config_path, cfg.yaml()).expect("harness bug: cannot write config");
+        let entry = match okane::import::config::load_from_yaml(cfg.yaml().as_bytes()) {
+            Err(e) => panic!("harness bug: generated configuration does not load: {}\n{}", e, cfg.yaml()),
+            Ok(set) => match set.select(&source) {
+                Ok(Some(e)) => Ok(e),
+                Ok(None) => Err("no fragment matches the statement file".to_string()),
+                Err(e) => Err(e.to_string()),
+            },
+        };
+        let f = std::rc::Rc::new(CfgFiles { config_path, source, entry });
+        self.cache.borrow_mut().insert(cfg.clone(), f.clone());
+        f
+    }
+}
+
+/// (a) library entry point (with the account of the selected configuration entry, like ImportCmd does)
+fn run_lib(cfg: &okane::import::config::ConfigEntry, account: &str, xml: &str) -> Result<Vec<ObsTxn>, String> {
     let txns = okane::import::import(xml.as_bytes(), okane::import::Format::IsoCamt053, cfg).map_err(|e| format!("import(): {}", e))?;
     let mut out = vec![];
     for t in &txns {
-        let d = t.to_double_entry(ACCOUNT).map_err(|e| format!("to_double_entry(): {}", e))?;
-        out.push(observe(&d));
+        let d = t.to_double_entry(&cfg.account).map_err(|e| format!("to_double_entry(): {}", e))?;
+        out.push(observe(&d, account));
     }
     Ok(out)
 }
@@ -602,19 +705,18 @@ fn write_in_place(path: &std::path::Path, data: &[u8]) {
 }
 
 /// (b) the command, on real files
-fn run_cmd(sc: &Scratch, stmt: &Stmt, xml: &str) -> Result<String, String> {
-    let source = &sc.files[stmt.operator as usize][stmt.new_to_old as usize];
-    write_in_place(source, xml.as_bytes());
+fn run_cmd(files: &CfgFiles, xml: &str) -> Result<String, String> {
+    write_in_place(&files.source, xml.as_bytes());
     let mut out: Vec<u8> = vec![];
-    okane::cmd::ImportCmd { config: sc.config_path.clone(), source: source.clone() }.run(&mut out).map_err(|e| format!("ImportCmd::run: {}", e))?;
+    okane::cmd::ImportCmd { config: files.config_path.clone(), source: files.source.clone() }.run(&mut out).map_err(|e| format!("ImportCmd::run: {}", e))?;
     String::from_utf8(out).map_err(|_| "ImportCmd::run: output is not UTF-8".to_string())
 }
 
-fn parse_text(text: &str) -> Result<Vec<ObsTxn>, String> {
+fn parse_text(text: &str, account: &str) -> Result<Vec<ObsTxn>, String> {
     let mut v = vec![];
     for r in parse_ledger::<plain::Ident>(&ParseOptions::default(), text) {
         match r {
-            Ok((_, okane_core::syntax::LedgerEntry::Txn(t))) => v.push(observe(&t)),
+            Ok((_, okane_core::syntax::LedgerEntry::Txn(t))) => v.push(observe(&t, account)),
             Ok(_) => {}
             Err(e) => return Err(e.to_string()),
         }
@@ -650,7 +752,7 @@ fn judge_shape(who: &str, stmt: &Stmt, exp: &[ExpTxn], obs: &[ObsTxn]) -> Option
     // every transaction has exactly one literal posting on the account in the statement's currency
     for (i, t) in obs.iter().enumerate() {
         if t.acct.len() != 1 || !t.acct[0].literal || t.acct[0].amount.as_ref().map(|a| a.1.as_str()) != Some(CCY) {
-            return viol("shape/account-posting/not-exactly-one", format!("transaction #{} has {} postings on {} (or not a plain {} amount)", i, t.acct.len(), ACCOUNT, CCY));
+            return viol("shape/account-posting/not-exactly-one", format!("transaction #{} has {} postings on {:?} (or not a plain {} amount); its postings: {:?}", i, t.acct.len(), stmt.cfg.account, CCY, t.all.iter().map(|p| p.0.as_str()).collect::<Vec<_>>()));
         }
     }
     let amt = |t: &ObsTxn| t.acct[0].amount.as_ref().unwrap().0;
@@ -716,15 +818,39 @@ fn judge_shape(who: &str, stmt: &Stmt, exp: &[ExpTxn], obs: &[ObsTxn]) -> Option
     None
 }
 
-fn funding(opening: i64) -> String {
-    format!("2021/09/01 * funding\n    {}    {} {}\n    Equity:Opening    {} {}\n\n", ACCOUNT, cents(opening), CCY, cents(-opening), CCY)
+fn funding(opening: i64, account: &str) -> String {
+    format!("2021/09/01 * funding\n    {}    {} {}\n    Equity:Opening    {} {}\n\n", account, cents(opening), CCY, cents(-opening), CCY)
 }
 
 fn judge(sc: &Scratch, stmt: &Stmt, xml: &str, txns_compared: &mut u64) -> Outcome {
     let exp = expected(stmt);
+    let account = stmt.cfg.account.as_str();
+    // --- the configuration as okane resolves it for the statement file (layered fragments: the most specific wins)
+    let files = sc.files(&stmt.cfg);
+    let entry = match &files.entry {
+        Ok(e) => e,
+        Err(e) => return Outcome::violation("config-layering/select-fails", format!("ConfigSet::select fails on a well-formed configuration: {}", e)),
+    };
+    {
+        use okane::import::config::RowOrder;
+        let bad = if entry.account != account {
+            Some(("account", entry.account.clone(), account.to_string()))
+        } else if entry.commodity.primary != CCY {
+            Some(("commodity", entry.commodity.primary.clone(), CCY.to_string()))
+        } else if entry.operator.is_some() != stmt.cfg.operator {
+            Some(("operator", format!("{:?}", entry.operator), format!("present={}", stmt.cfg.operator)))
+        } else if (entry.format.row_order == RowOrder::NewToOld) != stmt.cfg.new_to_old {
+            Some(("row_order", format!("{:?}", entry.format.row_order), format!("new_to_old={}", stmt.cfg.new_to_old)))
+        } else {
+            None
+        };
+        if let Some((field, got, want)) = bad {
+            return Outcome::violation(format!("config-layering/{}", field), format!("the configuration selected for {} has {} = {} but the most specific fragment that sets it says {}", stmt.cfg.source(), field, got, want));
+        }
+    }
     // --- run the real importer, both ways
-    let lib = run_lib(sc, stmt, xml);
-    let cmd = run_cmd(sc, stmt, xml);
+    let lib = run_lib(entry, account, xml);
+    let cmd = run_cmd(&files, xml);
     if stmt.entries.is_empty() {
         // no transaction can carry the two assertions: the statement is silent. Only record what happens.
         return match (&lib, &cmd) {
@@ -734,7 +860,7 @@ fn judge(sc: &Scratch, stmt: &Stmt, xml: &str, txns_compared: &mut u64) -> Outco
             _ => Outcome::violation("library-and-command-disagree/no-entries", format!("import(): {:?}\nImportCmd: {:?}", lib.as_ref().map(|v| show_obs(v)), cmd)),
         };
     }
-    if !stmt.operator && stmt.entries.iter().any(|e| e.shape().has_nonzero_charge()) {
+    if !stmt.cfg.operator && stmt.entries.iter().any(|e| e.shape().has_nonzero_charge()) {
         // okane legitimately needs the operator as the payee of the commission posting: only record what happens
         return match (&lib, &cmd) {
             (Err(_), Err(_)) => Outcome::dont_care("dc/no-operator-with-charge/import-fails"),
@@ -750,7 +876,7 @@ fn judge(sc: &Scratch, stmt: &Stmt, xml: &str, txns_compared: &mut u64) -> Outco
         Ok(t) => t,
         Err(e) => return Outcome::violation("import-fails/ImportCmd", format!("the import command rejected a consistent statement although import() succeeded: {}", e)),
     };
-    let parsed = match parse_text(&text) {
+    let parsed = match parse_text(&text, account) {
         Ok(v) => v,
         Err(e) => return Outcome::violation("printed-text-does-not-parse", format!("okane cannot read its own import output: {}\n{}", e, text)),
     };
@@ -763,6 +889,10 @@ fn judge(sc: &Scratch, stmt: &Stmt, xml: &str, txns_compared: &mut u64) -> Outco
         return v;
     }
     if lib != parsed {
+        let names = |v: &[ObsTxn]| v.iter().map(|t| t.all.iter().map(|p| p.0.clone()).collect::<Vec<_>>()).collect::<Vec<_>>();
+        if names(&lib) != names(&parsed) {
+            return Outcome::violation("text-differs-from-transactions/posting-accounts", format!("the printed text does not read back with the accounts of the imported transactions: import() has {:?}, the text reads {:?}\n{}", names(&lib), names(&parsed), text));
+        }
         return Outcome::violation("text-differs-from-transactions", format!("import() gives {} but the printed text reads {}\n{}", show_obs(&lib), show_obs(&parsed), text));
     }
     // --- conservation on the postings themselves
@@ -774,7 +904,7 @@ fn judge(sc: &Scratch, stmt: &Stmt, xml: &str, txns_compared: &mut u64) -> Outco
     // --- feed back through okane's own book-keeping
     // outside the quantifier ("charges included in the amount"): executed and recorded, not judged
     let dc_reason = if stmt.entries.iter().any(|e| e.shape().has_not_included()) { Some("charge-not-included") } else { None };
-    let ledger = format!("{}{}", funding(stmt.opening), text);
+    let ledger = format!("{}{}", funding(stmt.opening, account), text);
     // input-shape part of the signatures of the book-keeping clauses
     let ctxt = if stmt.entries.iter().any(|e| e.shape().included_without_txamt()) {
         "included-charge-without-TxAmt"
@@ -794,8 +924,8 @@ fn judge(sc: &Scratch, stmt: &Stmt, xml: &str, txns_compared: &mut u64) -> Outco
         _ => {}
     }
     let (bal, _) = res.unwrap();
-    let fin = bal.get(ACCOUNT).and_then(|m| m.get(CCY)).copied().unwrap_or(Q::ZERO);
-    let extra = bal.get(ACCOUNT).map(|m| m.keys().any(|k| k != CCY)).unwrap_or(false);
+    let fin = bal.get(account).and_then(|m| m.get(CCY)).copied().unwrap_or(Q::ZERO);
+    let extra = bal.get(account).map(|m| m.keys().any(|k| k != CCY)).unwrap_or(false);
     if fin != qc(stmt.closing()) || extra {
         if let Some(r) = dc_reason {
             return Outcome::dont_care(format!("dc/{}/{}/final-balance-differs", r, ctxt));
@@ -812,7 +942,16 @@ fn judge(sc: &Scratch, stmt: &Stmt, xml: &str, txns_compared: &mut u64) -> Outco
     let chg = stmt.entries.iter().any(|e| e.shape().has_included());
     let eff = exp.iter().any(|e| e.eff.is_some());
     let noval = stmt.entries.iter().any(|e| matches!(e.dates, Dates::ValueAbsent | Dates::BookDtTmOnly));
-    Outcome::pass(format!("n{}{}/{}{}{}{}", n, if stmt.operator { "" } else { "-noop" }, if mixed { "M" } else if batch { "B" } else { "-" }, if chg { "C" } else { "-" }, if eff { "E" } else { "-" }, if noval { "V" } else { "-" }))
+    let kind = if stmt.cfg.layout != Layout::Single {
+        "-layered"
+    } else if !stmt.cfg.is_plain() {
+        "-widths"
+    } else if !stmt.cfg.operator {
+        "-noop"
+    } else {
+        ""
+    };
+    Outcome::pass(format!("n{}{}/{}{}{}{}", n, kind, if mixed { "M" } else if batch { "B" } else { "-" }, if chg { "C" } else { "-" }, if eff { "E" } else { "-" }, if noval { "V" } else { "-" }))
 }
 
 // ------------------------------------------------------------------------------------------
@@ -840,8 +979,16 @@ fn shape_idx(name: &str) -> usize {
 struct Family {
     name: &'static str,
     n: usize,
-    operator: bool,
+    /// configurations the family is multiplied with (besides the 3 opening balances)
+    cfgs: Vec<CfgSpec>,
     alpha: Vec<EntrySpec>,
+}
+
+/// account name of display width `w` (>= 19): ASCII with an inner blank, or with two wide (CJK) characters
+fn account_of_width(w: usize, cjk: bool) -> String {
+    let head = if cjk { "Assets:\u{9280}\u{884c} Okane:" } else { "Assets:Okane Bank:" }; // both 18 columns wide
+    assert!(w >= 19, "harness bug: account width");
+    format!("{}{}", head, "x".repeat(w - 18))
 }
 
 fn families(thorough: bool) -> Vec<Family> {
@@ -862,7 +1009,8 @@ fn families(thorough: bool) -> Vec<Family> {
     let e3 = alphabet(&both, &all_amts, &[Dates::Same], &idx(&["k0", "k2-det-incl"]));
     // En: 2 x 3 x 1 x 4 = 24 (no non-zero charge; pairs without operator)
     let en = alphabet(&both, &all_amts, &[Dates::Same], &idx(&["k0", "k1-zero-chg", "k0-entry-empty-chrgs", "k2-entry-zero-chg"]));
-    let fam = |name, n, operator, alpha| Family { name, n, operator, alpha };
+    let orders = |operator: bool| vec![CfgSpec::plain(false, operator), CfgSpec::plain(true, operator)];
+    let fam = |name, n, operator: bool, alpha| Family { name, n, cfgs: orders(operator), alpha };
     let mut f = vec![fam("F0", 0, true, vec![]), fam("F1", 1, true, full.clone()), fam("F1n", 1, false, full)];
     if !thorough {
         f.push(fam("F2", 2, true, e2));
@@ -876,6 +1024,34 @@ fn families(thorough: bool) -> Vec<Family> {
         f.push(fam("F4", 4, true, e3));
     }
     f.push(fam("F2n", 2, false, en));
+    // --- configuration families over Ec: 2 x 3 x 1 x 3 = 18 (one entry)
+    let ec = alphabet(&both, &all_amts, &[Dates::Same], &idx(&["k0", "k1-entry-incl", "k2"]));
+    // Fw: account name of EVERY display width 34..=48 (the amount column of the printer is 48: account width + number
+    // length runs from 35 to 56 across it) x {ASCII, with wide characters} x precision {2, none}
+    let mut widths = vec![];
+    let mut counters = vec![];
+    for w in 34..=48usize {
+        for cjk in [false, true] {
+            for precision2 in [true, false] {
+                widths.push(CfgSpec { account: account_of_width(w, cjk), precision2, ..CfgSpec::plain(false, true) });
+                counters.push(CfgSpec { counter: Some(account_of_width(w, cjk).replacen("Assets", "Income", 1)), precision2, ..CfgSpec::plain(false, true) });
+            }
+        }
+    }
+    f.push(Family { name: "Fw", n: 1, cfgs: widths, alpha: ec.clone() });
+    // Fc: the same sweep for the counter account assigned by a rewrite rule
+    f.push(Family { name: "Fc", n: 1, cfgs: counters, alpha: ec.clone() });
+    // Fl: nested configuration fragments: account x commodity set {outer, inner, both} + three levels, both row orders
+    let mut layered = vec![];
+    for new_to_old in [false, true] {
+        for account in [Where::Outer, Where::Inner, Where::Both] {
+            for commodity in [Where::Outer, Where::Inner, Where::Both] {
+                layered.push(CfgSpec { account: "Assets:Bank:Savings".to_string(), layout: Layout::Nested { account, commodity }, ..CfgSpec::plain(new_to_old, true) });
+            }
+        }
+        layered.push(CfgSpec { account: "Assets:Bank:Savings".to_string(), layout: Layout::Three, ..CfgSpec::plain(new_to_old, true) });
+    }
+    f.push(Family { name: "Fl", n: 1, cfgs: layered, alpha: ec });
     f
 }
 
@@ -887,7 +1063,8 @@ fn run(ctx: &mut Ctx) {
     for fam in &fams {
         let a = fam.alpha.len() as u64;
         let seqs = a.pow(fam.n as u32);
-        let count = seqs * 6;
+        let ncfg = fam.cfgs.len() as u64;
+        let count = seqs * ncfg * 3;
         total += count;
         ctx.fact(&format!("statements_{}", fam.name), count);
         ctx.fact(&format!("alphabet_{}", fam.name), a);
@@ -896,7 +1073,7 @@ fn run(ctx: &mut Ctx) {
                 ctx.skip_cases(1);
                 continue;
             }
-            // digits: entries (last entry fastest), then row order, then opening (slowest)
+            // digits: entries (last entry fastest), then configuration, then opening (slowest)
             let mut r = idx;
             let mut entries: Vec<EntrySpec> = Vec::with_capacity(fam.n);
             for _ in 0..fam.n {
@@ -904,18 +1081,20 @@ fn run(ctx: &mut Ctx) {
                 r /= a;
             }
             entries.reverse();
-            let new_to_old = r % 2 == 1;
-            r /= 2;
+            let cfg = fam.cfgs[(r % ncfg) as usize].clone();
+            r /= ncfg;
             let opening = OPENINGS[(r % 3) as usize];
-            let stmt = Stmt { opening, new_to_old, operator: fam.operator, entries };
+            let stmt = Stmt { opening, cfg, entries };
             let xml = render_xml(&stmt);
             let mut compared = 0u64;
-            ctx.case(|| format!("{}\n--- config ---\n{}--- statement ({}) ---\n{}", stmt.summary(), config_yaml(), FILES[stmt.operator as usize][stmt.new_to_old as usize], xml), || judge(&sc, &stmt, &xml, &mut compared));
+            ctx.case(|| format!("{}\n--- config ---\n{}--- statement ({}) ---\n{}", stmt.summary(), stmt.cfg.yaml(), stmt.cfg.source(), xml), || judge(&sc, &stmt, &xml, &mut compared));
             ctx.count("transitions", compared);
             ctx.count("states", 1);
             ctx.count("entries", stmt.entries.len() as u64);
-            ctx.count("statements_new_to_old", stmt.new_to_old as u64);
-            ctx.count("statements_without_operator", !stmt.operator as u64);
+            ctx.count("statements_new_to_old", stmt.cfg.new_to_old as u64);
+            ctx.count("statements_without_operator", !stmt.cfg.operator as u64);
+            ctx.count("statements_layered_config", (stmt.cfg.layout != Layout::Single) as u64);
+            ctx.count("statements_account_width_sweep", (stmt.cfg.layout == Layout::Single && !stmt.cfg.is_plain()) as u64);
             ctx.count("batches_with_and_without_amtdtls", stmt.entries.iter().filter(|e| e.shape().heterogeneous()).count() as u64);
             ctx.count("entries_with_several_charge_records_on_one_transaction", stmt.entries.iter().filter(|e| e.shape().records_on_one_txn() >= 2).count() as u64);
             ctx.count("details_with_opposite_indicator", stmt.entries.iter().filter(|e| e.shape().opp.is_some()).count() as u64);
